@@ -468,7 +468,7 @@ func executeC20(scn *Scenario) *RunResult {
 				res.Counters["fault.build_inputs_recycled_after_build"]++
 				post, _ := soloRefs(st, c.Readers)
 				for k, r := range refs {
-					if post[k].out != r.out {
+					if post[k].out != r.out && !soloCapped(post[k].out) && !soloCapped(r.out) {
 						fail("answers-changed-after-build-input-overwritten", "unit", fmt.Sprintf("build %s: after the caller overwrote the keys, values and options it had passed to NewSlimTrie (%s), %s differs from a twin built from private copies of the same input", c.id(), c.Pattern, clip(k, 60)), r.out, post[k].out, 0)
 						break
 					}
@@ -695,7 +695,7 @@ func executeC20(scn *Scenario) *RunResult {
 				if viol == nil && !sim.stop {
 					post, _ := soloRefs(st, c.Readers)
 					for k, r := range refs {
-						if post[k].out != r.out {
+						if post[k].out != r.out && !soloCapped(post[k].out) && !soloCapped(r.out) {
 							fail("answers-changed-after-input-overwritten", "post-scribble", fmt.Sprintf("load %s: after the input buffer was overwritten (%s), %s alone differs from a twin loaded from a private copy", c.id(), c.Pattern, clip(k, 60)), r.out, post[k].out, sim.steps)
 							break
 						}
@@ -720,7 +720,7 @@ func executeC20(scn *Scenario) *RunResult {
 							} else {
 								post2, _ := soloRefs(second, c.Readers)
 								for k, r := range refs {
-									if post2[k].out != r.out {
+									if post2[k].out != r.out && !soloCapped(post2[k].out) && !soloCapped(r.out) {
 										fail("answers-changed-after-input-overwritten", "second-load-from-recycled-region", fmt.Sprintf("load %s: the buffer held a second stream behind the loaded one; after it was recycled, an instance loaded from the stream now stored there answers %s differently from a twin loaded from a private copy of the same bytes (the library kept something of the old region)", c.id(), clip(k, 60)), r.out, post2[k].out, sim.steps)
 										break
 									}
@@ -781,7 +781,7 @@ func executeC20(scn *Scenario) *RunResult {
 					}
 					post, _ := soloRefs(insts[k], c.Readers)
 					for key, r := range refs {
-						if post[key].out != r.out {
+						if post[key].out != r.out && !soloCapped(post[key].out) && !soloCapped(r.out) {
 							fail("dualload-diverged", "unit", fmt.Sprintf("dualload %s: instance of loader %d answers %s differently from a twin loaded alone from a private copy", c.id(), k, clip(key, 60)), r.out, post[key].out, sim.steps)
 							break
 						}
@@ -849,7 +849,7 @@ func executeC20(scn *Scenario) *RunResult {
 			if viol == nil && !sim.stop {
 				post, _ := soloRefs(st, c.Readers)
 				for k, r := range refs {
-					if post[k].out != r.out {
+					if post[k].out != r.out && !soloCapped(post[k].out) && !soloCapped(r.out) {
 						fail("answers-changed-after-output-overwritten", "post-scribble", fmt.Sprintf("marshal %s: after buffers returned by Marshal() were overwritten (%s), %s alone differs from the twin", c.id(), c.Pattern, clip(k, 60)), r.out, post[k].out, sim.steps)
 						break
 					}
